@@ -3,3 +3,5 @@ pub mod valve;
 pub mod gamespy;
 pub mod unreal2;
 pub mod minecraft;
+pub mod misc;
+pub mod eco;
